@@ -150,3 +150,8 @@ package lib
 //@ func (*ValidatorSet).GetValidatorAndIdx
 //@   pure
 //@   ensures[member] isnil(err) ==> vs != nil && vs.ValidatorSet != nil && 0 <= idx && idx < len(vs.ValidatorSet.ValidatorSet) && val == vs.ValidatorSet.ValidatorSet[idx] && bytes(val.PublicKey) == bytes(targetPublicKey)
+
+// ---- C02: two certificates are for the same block and results ----------------------------------------------
+//@ func (*QuorumCertificate).EqualPayloads
+//@   pure
+//@   ensures[same] result ==> x != nil && x.Header != nil && x.Header.Height == compare.Header.Height && bytes(x.BlockHash) == bytes(compare.BlockHash) && bytes(x.ResultsHash) == bytes(compare.ResultsHash) && bytes(x.ProposerKey) == bytes(compare.ProposerKey)
